@@ -292,7 +292,9 @@ func Graph(r *mon.Rng, maxTypes int) *model.Schema {
 			}
 			t = &model.TypeDef{Name: tname(i), Root: a}
 		case "keystring":
-			switch r.Intn(8) {
+			switch r.Intn(9) {
+			case 8: // no rules at all: the example is the one key (however a document spells it)
+				t = &model.TypeDef{Name: tname(i), Root: model.Str(mon.Pick(r, []string{"kf", "key one", "k/é", "Kf"}) + strconv.Itoa(i))}
 			case 7: // an or rule on a string example; one of its alternatives is not a string (and can never match a key)
 				sets := []model.OrItem{model.OrSet(model.RStr("type", mon.Pick(r, []string{"integer", "boolean", "float"}))), model.OrSet(model.RStr("type", "string"), model.RInt("minLength", 2), model.RInt("maxLength", 6))}
 				if r.Bool() {
